@@ -65,6 +65,8 @@ def run(ctx):
     rep, f, cg = ctx.rep, ctx.facts, ctx.cg
     rep.trust('pk/callgraph.py reachability (trait calls expanded to all workspace impls; rayon max -> Ord::cmp added by '
               'model), documented panic conditions of rand::Uniform::new / gen_range / env_logger init')
+    rep.assume('a generic shape parameter S of a state is one of the workspace\'s Shape implementors (what the library and the CLI '
+               'build): their smallest size bounds the length of a Vec<S> (pk/sizes.py)')
     rep.assume('panics inside third-party crates (rayon, serde_json, svg, clap/structopt-generated code, env_logger) and '
                'allocation failure are out of scope')
     try:
